@@ -120,3 +120,57 @@ theorem resourcesOf_size (dirVA : Nat) (t : Node) : (resourcesOf dirVA t).sec.si
   exact encNode_length dirVA t 0
 
 end Pelite.Resources
+
+namespace Pelite.Resources
+open Pelite
+
+/-! ### the represented tree is unique -/
+
+mutual
+theorem isNode_unique {r : Resources} : ∀ (t1 t2 : Node) (off : Nat), IsNode r off t1 → IsNode r off t2 →
+    t1.isDir = t2.isDir → t1 = t2
+  | .data c1 cp1, .data c2 cp2, off, h1, h2, _ => by
+    unfold IsNode at h1 h2
+    obtain ⟨_, _, _, _, _, a6, a7⟩ := h1
+    obtain ⟨_, _, _, _, _, b6, b7⟩ := h2
+    rw [a6, a7, b6, b7]
+  | .data .., .dir .., _, _, _, hk => by cases hk
+  | .dir .., .data .., _, _, _, hk => by cases hk
+  | .dir n1 es1, .dir n2 es2, off, h1, h2, _ => by
+    unfold IsNode at h1 h2
+    obtain ⟨_, _, a3, a4, a5⟩ := h1
+    obtain ⟨_, _, b3, b4, b5⟩ := h2
+    have hn : n1 = n2 := by rw [← a3, ← b3]
+    have hl : es1.length = es2.length := by omega
+    rw [hn, isEntries_unique es1 es2 (off + 16) a5 b5 hl]
+theorem isEntries_unique {r : Resources} : ∀ (es1 es2 : Entries) (pos : Nat), IsEntries r pos es1 → IsEntries r pos es2 →
+    es1.length = es2.length → es1 = es2
+  | .nil, .nil, _, _, _, _ => rfl
+  | .nil, .cons .., _, _, _, hl => by simp [Entries.length] at hl
+  | .cons .., .nil, _, _, _, hl => by simp [Entries.length] at hl
+  | .cons nm1 ch1 rest1, .cons nm2 ch2 rest2, pos, h1, h2, hl => by
+    unfold IsEntries at h1 h2
+    obtain ⟨a1, a2, a3, a4⟩ := h1
+    obtain ⟨b1, b2, b3, b4⟩ := h2
+    have hnm := nameAt_unique a1 b1
+    have hkind : ch1.isDir = ch2.isDir := by
+      by_cases hc : 0x80000000 ≤ le32 r.sec (pos + 4)
+      · rw [a2.1 hc, b2.1 hc]
+      · have e1 : ch1.isDir = false := by
+          cases hd : ch1.isDir with
+          | false => rfl
+          | true => exact absurd (a2.2 hd) hc
+        have e2 : ch2.isDir = false := by
+          cases hd : ch2.isDir with
+          | false => rfl
+          | true => exact absurd (b2.2 hd) hc
+        rw [e1, e2]
+    have hch := isNode_unique ch1 ch2 _ a3 b3 hkind
+    have hrest := isEntries_unique rest1 rest2 (pos + 8) a4 b4 (by simp only [Entries.length] at hl; omega)
+    rw [hnm, hch, hrest]
+end
+
+theorem isTree_unique {r : Resources} {t1 t2 : Node} (h1 : IsTree r t1) (h2 : IsTree r t2) : t1 = t2 :=
+  isNode_unique t1 t2 0 h1.2 h2.2 (by rw [h1.1, h2.1])
+
+end Pelite.Resources
